@@ -270,6 +270,37 @@ func (vc *VC) constGlobal(g *ssa.Global) *Term {
 		}
 	}
 	elemT := g.Type().(*types.Pointer).Elem()
+	if init == nil {
+		// declared without initialiser and never stored to: the zero value
+		declared := false
+		for _, f := range p.Syntax {
+			for _, d := range f.Decls {
+				if gd, ok := d.(*ast.GenDecl); ok && gd.Tok == token.VAR {
+					for _, s := range gd.Specs {
+						vs := s.(*ast.ValueSpec)
+						for _, n := range vs.Names {
+							if n.Name == g.Name() && len(vs.Values) == 0 {
+								declared = true
+							}
+						}
+					}
+				}
+			}
+		}
+		if !declared {
+			return nil
+		}
+		if _, isS := structOf(elemT); !isS && !isIntType(elemT) && !isBoolType(elemT) {
+			return nil
+		}
+		z := vc.zero(elemT)
+		name := vc.fresh("cst_" + g.Name())
+		vc.declare(name, z.Sort)
+		vc.assume("(= " + name + " " + z.S + ")")
+		vc.lits[key] = name
+		vc.note("package variable " + g.String() + " treated as constant (never stored to; zero value)")
+		return &Term{name, z.Sort, elemT}
+	}
 	if _, isIface := elemT.Underlying().(*types.Interface); isIface && init != nil {
 		// interface variable initialised once with a value of a concrete type:
 		// its dynamic type is known (the payload only for constant conversions)
